@@ -1024,7 +1024,7 @@ static void emitFunction(Function &F, raw_ostream &O) {
                 } else if (nm == "__VERIFIER_thaw") {
                     O << "    __frozen = 0;\n";
                 } else if (nm == "__VERIFIER_nondet_uint_unlogged") {
-                    O << "    " << r << " = nondet_uint();\n";
+                    O << "    " << r << " = nondet_uint(); __ndh = (unsigned long)" << r << ";\n";
                 } else if (nm.rfind("__VERIFIER_nondet_", 0) == 0) {
                     O << "    " << r << " = nondet_" << nm.substr(18) << "(); __nd = (unsigned long)" << r << ";\n";
                 } else handled = false;
@@ -1139,7 +1139,7 @@ int main(int argc, char **argv) {
     OB.flush(); OG.flush(); OP.flush();
     raw_ostream &O = outs();
     O << "#include <stdint.h>\n#include <string.h>\n";
-    O << "struct LPAD { uint8_t *f0; uint32_t f1; };\nstatic int __frozen; static void *__frozen_obj0, *__frozen_obj1, *__frozen_obj2, *__frozen_obj3; unsigned long __nd;\n";
+    O << "struct LPAD { uint8_t *f0; uint32_t f1; };\nstatic int __frozen; static void *__frozen_obj0, *__frozen_obj1, *__frozen_obj2, *__frozen_obj3; unsigned long __nd, __ndh;\n";
     O << "static uint8_t *__exc_obj; static int __exc_type; static int __exc_pending;\n";
     O << "static uint8_t __exc_buf[4][64]; static int __exc_k;\n";
     O << "static uint8_t *__exc_alloc(uint64_t n) { __CPROVER_assume(n <= 64 && __exc_k < 4); return __exc_buf[__exc_k++]; }\n";
